@@ -374,6 +374,19 @@ pub fn gluing_pairs(kmax: usize, dmax: usize) -> Vec<(String, P, P)> {
             }
         }
     };
+    // every leg 4 -> 4 (all 256 tables: permutations, legs that pass any checksum of a permutation, constant legs) as the
+    // boundary leg of a discrete operand on 4 nodes, against 4 distinguishable wires on the other side
+    for (ti, table) in ohmc_core::uni::tables(4, 4).into_iter().enumerate() {
+        let wires_f = P { nodes: vec![0; 8], edges: (0..4).map(|i| edge(i as u8, vec![i], vec![4 + i])).collect(), s: (0..4).collect(), t: (4..8).collect() };
+        let disc_g = P { nodes: vec![0; 4], edges: vec![], s: table.clone(), t: (0..4).collect() };
+        out.push((format!("boundary-leg-table(right,{})", ti), wires_f, disc_g));
+        let disc_f = P { nodes: vec![0; 4], edges: vec![], s: (0..4).collect(), t: table.clone() };
+        let wires_g = P { nodes: vec![0; 8], edges: (0..4).map(|j| edge((10 + j) as u8, vec![j], vec![4 + j])).collect(), s: (0..4).collect(), t: (4..8).collect() };
+        out.push((format!("boundary-leg-table(left,{})", ti), disc_f, wires_g));
+        // and between two spiders (no hyperedges at all)
+        let id_f = P { nodes: vec![0; 4], edges: vec![], s: (0..4).collect(), t: (0..4).rev().collect() };
+        out.push((format!("boundary-leg-table(spiders,{})", ti), id_f, P { nodes: vec![0; 4], edges: vec![], s: table.clone(), t: (0..4).collect() }));
+    }
     for k in 1..=kmax {
         // chain f0-g0-f1-g1-...-f(k-1)-g(k-1)
         let mut w = vec![];
